@@ -334,7 +334,7 @@ class Extractor:
                 name, typ = ts[k + 1], ts[k + 12]
                 if typ not in INT_SIZES:
                     raise ExtractError('R1: size_of::<%s> is not a primitive integer' % typ)
-                consts[name] = str(INT_SIZES[typ])
+                consts[name] = '%dusize' % INT_SIZES[typ]      # typed: `SIZE.checked_add(..)` must stay a method call on usize
                 k += len(pat)
                 continue
             out.append(ts[k]); k += 1
